@@ -432,6 +432,10 @@ func DecodeObject(r io.Reader) (ugo.Object, error) {
 		if err := gob.NewDecoder(r).Decode(&v); err != nil {
 			return nil, err
 		}
+		if v == nil {
+			// a gob stream may carry a nil interface value
+			return nil, errors.New("decode error: nil object")
+		}
 		return v, nil
 	}
 	return nil, errors.New(
@@ -1220,7 +1224,11 @@ func (sf *SourceFile) UnmarshalBinary(data []byte) error {
 		return err
 	}
 
-	sf.Name = obj.String()
+	name, ok := obj.(ugo.String)
+	if !ok {
+		return errors.New("invalid file name type:" + obj.TypeName())
+	}
+	sf.Name = string(name)
 	var vi varintConv
 	vi.reader = rd
 	v, err := vi.read()
